@@ -35,6 +35,7 @@ def run(ck):
         if not ck.known_finding_seen(KF):
             ck.violation(KF, 'spec/MC_Alu_W4_strict.cfg', 'shift by exactly 40: carry is not the last bit shifted out')
     isa_common.family_check(ck, FAMILY, ck.pick(4, 8), 'c04', rounds=ck.pick(1, 4))
+    isa_common.sweep_all(ck, 'c04', seedoff=400)
     ck.assumptions += isa_common.ISA_ASSUMPTIONS + [
         'the multiplier, product shift and alignment are proved exact at full width (W = 16) by Apalache/SMT on MulInd.tla, whose '
         'operators TLC shows equal to TeakAlu.tla for all values at W = 6; the barrel shifter and the exponent are exhaustive at '
